@@ -12,6 +12,7 @@ iter_begin t0 i0 | iter_next i0 | iter_done i0 | iter_delete i0 destroy|keep
 foreach t0 k1:3 k2:0 ...        callback flag word per ident (default 1 = CONTINUE; 2 = DELETE, 4 = ERROR)
 hashic <hex> | eqic <hex> <hex> case-insensitive hash / equality of byte_buf.c
 hl2 <hex>                       aws_hash_byte_cursor_ptr at the 4 alignments, aws_hash_string, aws_hash_c_string at the 4 alignments
+hl2s <hexkey> <hexafter>        the key as a sub-view of a larger buffer: following bytes vary, all 4 alignments
 hptr <hex64> | hcomb <hex64> <hex64>   aws_hash_ptr, aws_hash_combine
 ```
 Keys: `knull` or `k<ident>.p<ptr>`; values: `vnull` or `v<n>`.
@@ -153,6 +154,11 @@ def step (s : St) (t : List String) : St × List String :=
       let hc := hex64 (AwsVerif.Lookup3.hashCStr bs)
       (s, ["P hl2 consistent=1", s!"W hl2 cur={hb},{hb},{hb},{hb} str={hb} cstr={hc},{hc},{hc},{hc}"])
     | none => bad s
+  | ["hl2s", hx, ax] => match parseHex? hx, parseHex? ax with
+    | some bs, some _ =>
+      let hb := hex64 (AwsVerif.Lookup3.hashBytes bs)
+      (s, ["P hl2s consistent=1", s!"W hl2s cur={hb},{hb},{hb},{hb}"])
+    | _, _ => bad s
   | ["hptr", v] => match parseHexNat? v with
     | some p => (s, ["W hptr " ++ hex64 (AwsVerif.Lookup3.hashPtr (p % 2 ^ 64))])
     | none => bad s
